@@ -1,5 +1,10 @@
 import XmppModel.Model.Ibb
 import XmppModel.Model.IbbReader
+import XmppModel.Model.IbbSend
+import XmppModel.Lemmas.Ibb
+import XmppModel.Lemmas.IbbSend
+import XmppModel.Model.IbbClose
+import XmppModel.Generated.C15
 /-!
 # C15 — an in-band bytestream is a reliable ordered byte pipe
 
@@ -251,7 +256,152 @@ theorem C15_reader_lost_wakeup_in_snapshot :
 
 end Reader
 
-/-! ### the executable codec instance (validated by correspondence, spot-checked here) -/
+/-! ### `Close` takes the receiving side down on every exit path (regenerated control points) -/
+section CloseProgram
+open XmppModel.IbbClose
+
+/-- over the control points regenerated from `ibb/conn.go` on this run: whatever step of `Close`
+fails (flush refused, encoder close, close request not sent / not answered in time) or none, the
+deferred `closeRead` has run when `Close` returns -/
+theorem C15_close_always_ends_read :
+    (Generated.C15.closeProgram.bind parseProgram).map alwaysClosesRead = some true := by decide
+
+/-- the same for the peer-initiated close (`closeNoNotify`) -/
+theorem C15_close_no_notify_always_ends_read :
+    (Generated.C15.closeNoNotifyProgram.bind parseProgram).map alwaysClosesRead = some true := by decide
+
+/-- both routines mark the connection closed before anything can fail -/
+theorem C15_close_sets_closed_first :
+    ((Generated.C15.closeProgram.bind parseProgram).map fun p => p.head? == some Stmt.setClosed) = some true ∧
+    ((Generated.C15.closeNoNotifyProgram.bind parseProgram).map fun p => p.head? == some Stmt.setClosed) = some true := by
+  decide
+
+/-- what `closeRead` having run means for a reader: no `Read` blocks any more — buffered bytes
+first, then end-of-file (`C15_drain_then_eof`), and later packets are refused -/
+theorem C15_read_returns_after_close (cd : Codec) (s : RState) (n : Nat) (p : Packet) :
+    readOut (Ibb.close s) n ≠ .blocks ∧ recv cd (Ibb.close s) p = (Ibb.close s, .itemNotFound) :=
+  ⟨(C15_drain_then_eof s n).2.1, C15_closed_refuses cd s p⟩
+
+/-- over the control points of `ibb.open` regenerated from `ibb/ibb.go`: the sid is registered
+with the handler exactly when the open succeeded — after a refused or failed open (any failing
+step) it is unknown, so later data for it is answered item-not-found (`C15_refuse_unknown_or_closed`) -/
+theorem C15_open_registers_iff_accepted :
+    (Generated.C15.openProgram.bind parseOProgram).map registersIffAccepted = some true := by decide
+
+/-- negation witness: registering before the request goes out and forgetting to unregister on
+the error-reply path leaves the sid registered after a refused open -/
+theorem C15_open_register_first_fails :
+    registersIffAccepted [.other, .register, .fallible true, .other, .fallible true, .fallible true,
+      .fallible false] = false := by decide
+
+/-- the packet counters of both sides are 16 bit counters advanced by one: they wrap at 65536,
+the modulus of `recv` / `seqsFrom` (regenerated from the field types and the increment
+statements of `handlePayload` and `stanzaWriter.Write`) -/
+theorem C15_seq_modulus_fact :
+    Generated.C15.recvSeqModulus = some 65536 ∧ Generated.C15.sendSeqModulus = some 65536 := by decide
+
+/-- negation witness: taking the receiving side down only after the peer acknowledged the close
+request leaves it up whenever an earlier step fails -/
+theorem C15_close_after_ack_only_fails :
+    alwaysClosesRead [.setClosed, .flush, .encClose, .other, .sendCloseIQ, .closeReadNow, .closeResp] = false := by
+  decide
+
+example : (run (some 2) closeProgram).rxClosed = true ∧ (run (some 2) closeProgram).failed = true := by decide
+
+end CloseProgram
+
+/-! ### the Lean base64 codec: both laws, and the pipe without any codec hypothesis -/
+
+/-- `decode (encode x) = x` for every byte string -/
+theorem C15_codec_roundtrip (x : Bytes) : std.dec (std.enc x) = some x := std_dec_enc x
+
+/-- `encode (x ++ y) = encode x ++ encode y` whenever `3 ∣ |x|` -/
+theorem C15_codec_append (x y : Bytes) (h : 3 ∣ x.length) : std.enc (x ++ y) = std.enc x ++ std.enc y :=
+  std_enc_append x y h
+
+/-- `C15_pipe` for the Lean codec -/
+theorem C15_pipe_std (written : Bytes) (closed : Bool) (ps : List Packet)
+    (h : emits std written closed ps = true) :
+    let r := recvAll std ⟨true, 0, [], 0⟩ ps
+    r.1.buf.isPrefixOf written = true ∧ (closed = true → r.1.buf = written) ∧
+    r.2 = ps.map (fun _ => Reply.ack) ∧ r.1.seq = ps.length % 65536 :=
+  C15_pipe std written closed ps h
+
+/-! ### the packetiser satisfies the sender relation; end to end -/
+
+/-- the data stanzas a sender produces for an op sequence and block size -/
+def packetsOf (bs : Nat) (ops : List SOp) : List Packet := mkPackets 0 (srun (sinit bs) ops).chunks
+
+/-- every packet carries the encoding of its raw chunk, numbered consecutively from zero, and the
+chunks followed by the two buffers are exactly the bytes written (nothing lost, nothing twice) -/
+theorem C15_packetiser_stream (bs : Nat) (ops : List SOp) :
+    let s := srun (sinit bs) ops
+    s.chunks.flatten ++ s.ebuf ++ s.wbuf = writtenOf false ops ∧
+    (SOp.close ∈ ops → s.ebuf = [] ∧ s.wbuf = []) := by
+  have h := srun_spec ops (sinit bs) (by intro h; simp [sinit] at h)
+  refine ⟨by simpa [pending, sinit] using h.1, ?_⟩
+  intro hc
+  exact h.2.1 (h.2.2 (Or.inr hc))
+
+/-- C15_emits: for every sequence of Write/Flush/Close and every block size the packetiser's
+output is admissible (`emits`) for the bytes written, closed iff `Close` was called -/
+theorem C15_packetiser_emits (bs : Nat) (ops : List SOp) :
+    emits std (writtenOf false ops) (decide (SOp.close ∈ ops)) (packetsOf bs ops) = true := by
+  have hs := C15_packetiser_stream bs ops
+  simp only [] at hs
+  unfold emits packetsOf
+  rw [seqsFrom_mk, decodeAll_mk]
+  simp only [Bool.true_and]
+  by_cases hc : SOp.close ∈ ops
+  · have := hs.2 hc
+    simp only [hc, decide_true, if_true, beq_iff_eq]
+    rw [← hs.1, this.1, this.2]; simp
+  · simp only [hc, decide_false, Bool.false_eq_true, if_false]
+    rw [← hs.1, List.append_assoc]
+    exact List.isPrefixOf_iff_prefix.mpr (List.prefix_append _ _)
+
+/-- C15_end_to_end: whatever the writer does (any partition into Write calls, Flush calls in
+between, any block size), the data stanzas delivered in order to the peer's receiver are all
+acknowledged and put exactly a prefix of the written bytes into the reader's buffer — all of
+them, once, in order, unmodified, as soon as `Close` has been called -/
+theorem C15_end_to_end (bs : Nat) (ops : List SOp) :
+    let r := recvAll std ⟨true, 0, [], 0⟩ (packetsOf bs ops)
+    r.1.buf.isPrefixOf (writtenOf false ops) = true ∧
+    (SOp.close ∈ ops → r.1.buf = writtenOf false ops) ∧
+    r.2 = (packetsOf bs ops).map (fun _ => Reply.ack) := by
+  have h := C15_pipe std _ _ _ (C15_packetiser_emits bs ops)
+  simp only [] at h
+  refine ⟨h.1, ?_, h.2.2.1⟩
+  intro hc; exact h.2.1 (by simp [hc])
+
+example : packetsOf 4 [.write [1, 2, 3, 4, 5], .write [6], .flush, .close] =
+    [⟨true, 0, stdEnc [1, 2, 3]⟩, ⟨true, 1, stdEnc [4, 5, 6]⟩] := by decide
+
+/-! ### the two directions of a stream are independent -/
+
+/-- C15_both_directions: in every history of one endpoint (writes, flushes, incoming packets —
+good or bad —, reads, close) the sending side ends exactly where it would without any receiving
+activity and the receiving side exactly where it would without any sending activity -/
+theorem C15_both_directions (cd : Codec) : ∀ (ops : List EOp) (e : Endpoint),
+    (erun cd e ops).tx = srun e.tx (txOps ops) ∧ (erun cd e ops).rx = rxRun cd e.rx ops := by
+  intro ops
+  induction ops with
+  | nil => intro e; exact ⟨rfl, rfl⟩
+  | cons op ops ih =>
+    intro e
+    have := ih (estep cd e op)
+    simp only [erun, List.foldl_cons] at *
+    cases op <;> simp only [estep, txOps, rxRun, srun, List.foldl_cons] at * <;> exact this
+
+/-- consequence: the bytes the local reader gets do not depend on what is written locally, and
+the stanzas sent do not depend on what is received (same packets, hence same numbering) -/
+theorem C15_directions_corollary (cd : Codec) (ops : List EOp) (e : Endpoint) :
+    mkPackets 0 (erun cd e ops).tx.chunks = mkPackets 0 (srun e.tx (txOps ops)).chunks ∧
+    (erun cd e ops).rx.buf = (rxRun cd e.rx ops).buf := by
+  have := C15_both_directions cd ops e
+  rw [this.1, this.2]; exact ⟨rfl, rfl⟩
+
+/-! ### the executable codec instance: spot checks -/
 example : std.dec (std.enc [1, 2, 3, 4, 5]) = some [1, 2, 3, 4, 5] := by decide
 example : std.dec [81, 85, 74, 68, 10, 82, 65, 61, 61] = some [65, 66, 67, 68] := by decide
 example : std.dec [82, 69, 86, 71, 33, 33, 33, 33] = none := by decide
